@@ -54,6 +54,8 @@ async def scenario(ev, A, P, N, backlog, durs, stop_at, wtt, arrivals=None, faul
         ev.append(('start', i, loop.time()))
         await asyncio.sleep(durs[i % len(durs)])
         ev.append(('end', i, loop.time()))
+        if fault == 'task_cancelled' and i % 2 == 0:          # the task function itself ends with CancelledError (it cancelled and awaited a helper task of its own)
+            h = asyncio.ensure_future(asyncio.sleep(10 ** 6)); h.cancel(); await h
     async def feed():
         for i in range(backlog):
             if arrivals: await asyncio.sleep(arrivals[i % len(arrivals)])
@@ -109,6 +111,14 @@ def evaluate(cfg, ev, hung):
     if N:
         if len(taken) > N: f.append(f"C05/C01: max_tasks_to_execute={N} but {len(taken)} messages were taken from the broker")
         if returned is not None and stop is None and backlog >= N and len(taken) < N: f.append(f"C05: only {len(taken)} of N={N} accepted")
+    lr = next((e for e in ev if e[0] == 'listen_raised'), None)
+    if lr is not None:
+        f.append(f"C05: listen() raised {lr[2]} instead of returning after the accepted work completed")
+        lost = [e[1] for e in taken if e[1] not in c]; unfinished_ = [e[1] for e in starts if not any(x[0] == 'acked' and x[1] == e[1] for x in ev)]
+        if lost: f.append(f"C01/C05: messages {lost} were taken from the broker but never executed (listen() raised)")
+        if unfinished_: f.append(f"C05: accepted tasks {unfinished_} were abandoned before completion (listen() raised)")
+    if hung and A and running == 0 and finite and len(starts) >= A:
+        f.append(f"C03: the worker is stuck although no task function is running (started {len(starts)}, all ended): execution slots of max_async_tasks={A} were leaked")
     if hung:
         must_return = (stop is not None or N) and (finite or wtt is not None)
         if must_return: f.append(f"C05: listen() did not return ({'wait_tasks_timeout=' + str(wtt) if wtt is not None else 'all tasks finite'}; stop at {stop_at}, N={N})")
@@ -132,16 +142,18 @@ def run(sc):
                                 if stop_at is None and not N: continue
                                 cfgs.append(dict(A=A, P=P, N=N or None, backlog=(A or 3) + P + (N or 0) + 5, durs=durs, stop_at=stop_at, wtt=wtt, arrivals=arrivals, fault=None))
                                 if arrivals is None and durs in ([1.0], [0.5, 30.0, 2.0]) and wtt is None and stop_at is not None:
-                                    for fault in ('sentinel_payload', 'ack_raises'):
+                                    for fault in ('sentinel_payload', 'ack_raises', 'task_cancelled'):
                                         cfgs.append(dict(A=A, P=P, N=N or None, backlog=(A or 3) + P + (N or 0) + 5, durs=durs, stop_at=stop_at, wtt=wtt, arrivals=arrivals, fault=fault))
     fails = []; n = 0; stats = []
     for cfg in cfgs:
         ev = []; hung = False
         try: run_virtual(scenario(ev, cfg['A'], cfg['P'], cfg['N'], cfg['backlog'], cfg['durs'], cfg['stop_at'], cfg['wtt'], cfg['arrivals'], cfg.get('fault')), until=10 ** 7)
         except asyncio.TimeoutError: hung = True
-        except RuntimeError as ex:
-            if 'idle forever' in str(ex): hung = True
-            else: raise
+        except Exception as ex:          # listen() itself failed (e.g. an exception group out of the task group)
+            if isinstance(ex, RuntimeError) and 'idle forever' in str(ex): hung = True
+            else:
+                inner = getattr(ex, 'exceptions', None)
+                ev.append(('listen_raised', -1, type(ex).__name__ + (' of ' + ', '.join(type(x).__name__ for x in inner) if inner else '') + ': ' + str(ex)[:120]))
         n += 1
         fl, st = evaluate(dict(cfg, N=cfg['N'] or 0), ev, hung)
         if fl: fails.append({'key': json.dumps({k: v for k, v in cfg.items()}, sort_keys=True), 'config': cfg, 'failed_clauses': fl, 'observed': st})
